@@ -902,6 +902,10 @@ pub trait StoreFor<T: Storable>: Configurable + private::StoreCallbacks<T> {
     /// This is a low-level API method. You usually don't want to call this directly.
     fn resolve_id(&self, id: &str) -> Result<T::HandleType, StamError> {
         if let Some(idmap) = self.idmap() {
+            //a public ID always comes first, also when it has the shape of a temporary one
+            if let Some(handle) = idmap.data.get(id) {
+                return Ok(*handle);
+            }
             if idmap.resolve_temp_ids && id.starts_with(T::temp_id_prefix()) {
                 if let Some(number) = resolve_temp_id(id) {
                     let handle = T::HandleType::new(number);
@@ -911,14 +915,10 @@ pub trait StoreFor<T: Storable>: Configurable + private::StoreCallbacks<T> {
                     }
                 }
             }
-            if let Some(handle) = idmap.data.get(id) {
-                Ok(*handle)
-            } else {
-                Err(StamError::IdNotFoundError(
-                    id.to_string(),
-                    Self::store_typeinfo(),
-                ))
-            }
+            Err(StamError::IdNotFoundError(
+                id.to_string(),
+                Self::store_typeinfo(),
+            ))
         } else {
             Err(StamError::NoIdError(Self::store_typeinfo()))
         }
